@@ -21,14 +21,13 @@ META = {
                   'the v1 code generator + differential correspondence with the implementation (outcomes and binding '
                   'summaries of generated functions via hook H1)'),
     'design_ref': 'DESIGN.md section 4 C02',
-    'theorems': ['C02_gen_total', 'C02_gen_main_total', 'C02_gen_sound_partial', 'C02_gen_expr_sound_partial',
-                 'C02_roundtrip_partial', 'C02_roundtrip_code_partial',
-                 'C02_refuted_F18', 'C02_refuted_F22', 'C02_refuted_F23', 'C02_refuted_F26'],
+    'theorems': ['C02_gen_total', 'C02_gen_main_total', 'C02_gen_sound', 'C02_gen_sound_coherent', 'C02_gen_expr_sound',
+                 'C02_roundtrip_partial', 'C02_roundtrip_code_partial', 'C02_refuted_F9'],
     'tables': [],
     'level_text': ('Proved in Coq for ALL class tables over the model grammar, all positions (TypeInfo), all documents and '
                    'all budgets: (a) every supported annotation generates; (b) the generated program equals the semantic '
                    'specification load_v1 whenever the final generator state passes two decidable checks (coherent, '
-                   'region_ok) — outside them the statement is refuted with witnesses (F18, F22, F23, F26); (c) load_v1 '
+                   'region_ok) (c) load_v1 '
                    'inverts the dumper on conforming values (leaf laws as hypotheses). The model is re-validated against '
                    'the implementation on every run.'),
     'level_note': ('Trusted: Coq kernel + vm_compute; the hand-written model of v1/loaders.py, v1/decorators.py, '
@@ -255,9 +254,7 @@ def has_neg_td_any(x):
     return False
 
 
-REGION_ID = {'F3': 'F3-neg-timedelta-v1', 'F18': 'F18-v1-fixed-tuple-index', 'F22': 'F22-v1-generic-helper-name',
-             'F23': 'F23-v1-literal-guard-key', 'F26': 'F26-v1-seq-in-dict-key', 'F9': 'F9-v1-same-name',
-             'F27': 'F27-v1-none-annotation', 'F28': 'F28-dump-frozenset-in-dict-key'}
+REGION_ID = {'F3': 'F3-neg-timedelta-v1', 'F9': 'F9-v1-same-name', 'F28': 'F28-dump-frozenset-in-dict-key'}
 
 
 def open_region(ctx, reg):
@@ -284,7 +281,10 @@ def model_has_bare_none(m):
 
 
 def predicted_clean(t, model):
-    """Python-side region prediction used only to decide how fields are PACKED into classes."""
+    """Decides only how fields are PACKED into classes: the shapes of the repaired defects (nested fixed
+    tuples F18, sequences in dict keys F48, several Literals / Unions in one field F22, bare None F49) and
+    of the open dump defect F28 get a class of their own, so that a regression is reported with a
+    minimal concrete input."""
     if has_bare_none(t, model):
         return False
     if any(s['k'] == 'dict' and any(x['k'] == 'seq' and x['kind'] == 'frozenset' for x in G.subtypes(s['kt'], model))
@@ -323,9 +323,6 @@ def build_cases(ctx):
             labels.append(label)
         if not fields:
             return
-        for f in fields:
-            if not predicted_clean(f['ty'], mb.m):
-                f['generous'] = True
         mb.m['classes'][0]['fields'] = fields
         mb.m['json'] = all(json_keys_ok(f['ty'], mb.m) for c in mb.m['classes'] for f in c['fields'])
         cases.append(('+'.join(labels), mb))
@@ -450,19 +447,53 @@ def explicit_models(mi, r):
                 ('eps', tup(leaf('bytes'), leaf('bytearray')))])
     mk('bytes', bts)
 
-    # documented finding witnesses (each alone in its class)
-    mk('F18:tuple-in-tuple', lambda mb: mb.cls([('alpha', tup(tup(leaf('int'), leaf('str')), leaf('str')))]))
-    mk('F22:two-literals', lambda mb: mb.cls([('alpha', tup(lit('a'), lit('b')))]))
-    mk('F22:two-unions', lambda mb: mb.cls([('alpha', tup(union(leaf('int'), leaf('str')), union(leaf('float'), leaf('bool'))))]))
-    mk('F23:literal-1-true', lambda mb: mb.cls([('alpha', lit(1)), ('beta_val', lit(True))]))
+    # shapes of the repaired defects (regression inputs) and witnesses of the open ones
+    mk('shape-F18:tuple-in-tuple', lambda mb: mb.cls([('alpha', tup(tup(leaf('int'), leaf('str')), leaf('str')))]))
+    mk('shape-F22:two-literals', lambda mb: mb.cls([('alpha', tup(lit('a'), lit('b')))]))
+    mk('shape-F22:two-unions', lambda mb: mb.cls([('alpha', tup(union(leaf('int'), leaf('str')), union(leaf('float'), leaf('bool'))))]))
+    mk('shape-F23:literal-1-true', lambda mb: mb.cls([('alpha', lit(1)), ('beta_val', lit(True))]))
     def neg_td(mb):
         mb.cls([('alpha', leaf('timedelta')), ('beta_val', seq('list', leaf('timedelta')))])
         mb.m['instances'].append(['C', mb.m['classes'][0]['name'],
                                   [['alpha', ['O', 'timedelta', '-1,86399,0']], ['beta_val', ['L', [['O', 'timedelta', '0,5,0']]]]]])
     mk('F3:negative-timedelta', neg_td)
+    def f18_more(mb):
+        nt = mb.named([('aa', leaf('int')), ('bb', tup(leaf('int'), leaf('str')))])
+        td = mb.typed([('rk', tup(leaf('int'), tup(leaf('str'), leaf('float'))))], [])
+        mb.cls([('alpha', seq('list', nt)), ('beta_val', td), ('gamma2', tup(opt(tup(leaf('int'), leaf('str'))), leaf('str'))),
+                ('delta_my_key', seq('list', tup(tup(tup(leaf('int'), leaf('str')), leaf('bool')), leaf('str'))))])
+    mk('shape-F18:nt-td-opt-depth3', f18_more)
+
+    def f22_more(mb):
+        nt = mb.named([('aa', lit('x')), ('bb', lit('y'))])
+        mb.cls([('alpha', nt), ('beta_val', dct(lit('k1', 'k2'), lit(1, 2))), ('gamma2', lit(0)), ('delta_my_key', lit(False)),
+                ('eps', seq('list', tup(union(leaf('int'), leaf('str')), union(leaf('float'), leaf('bool')))))])
+    mk('shape-F22-F23:literals-unions', f22_more)
+    mk('shape-F48:frozenset-list-keys', lambda mb: mb.cls([('alpha', dct(tup(seq('tuple', leaf('str')), leaf('int')), seq('list', leaf('int')))),
+                                                          ('beta_val', dct(seq('tuple', seq('tuple', leaf('int'))), leaf('str')))]), json_ok=False)
+    mk('shape-F49:none-positions', lambda mb: mb.cls([('alpha', leaf('nonebare')), ('beta_val', tup(leaf('int'), leaf('nonebare'))),
+                                                     ('gamma2', dct(leaf('str'), leaf('nonebare')))]))
+
+    # F47: Union[list[int], str] — the container member is tried first, `str` is returned as is
+    def union_container(mb):
+        mb.cls([('alpha', union(seq('list', leaf('int')), leaf('str'))), ('beta_val', seq('list', union(seq('list', leaf('int')), leaf('str'))))])
+        n = mb.m['classes'][0]['name']
+        mb.m['instances'] += [['C', n, [['alpha', ['L', [['I', '1'], ['I', '2']]]], ['beta_val', ['L', [['S', 'ab'], ['L', [['I', '3']]]]]]]],
+                              ['C', n, [['alpha', ['S', 'ab']], ['beta_val', ['L', []]]]]]
+    mk('shape-F47:union-container-str', union_container)
+
+    # F9 (open): two different NamedTuple types with the same __name__
+    def same_name(mb):
+        a = mb.named([('aa', leaf('int'))])
+        b = mb.named([('aa', leaf('str')), ('bb', leaf('int'))])
+        mb.m['named_alias'] = {a['name']: 'SameP', b['name']: 'SameP'}
+        mb.cls([('alpha', a), ('beta_val', b)])
+        mb.m['instances'].append(['C', mb.m['classes'][0]['name'],
+                                  [['alpha', ['M', a['name'], [['I', '1']]]], ['beta_val', ['M', b['name'], [['S', 's'], ['I', '2']]]]]])
+    mk('F9:same-name-namedtuples', same_name)
     mk('F28:frozenset-in-key', lambda mb: mb.cls([('alpha', dct(tup(seq('frozenset', leaf('int')), leaf('str')), leaf('int')))]), json_ok=False)
-    mk('F27:none-annotation', lambda mb: mb.cls([('alpha', seq('list', leaf('nonebare')))]))
-    mk('F26:seq-in-dict-key', lambda mb: mb.cls([('alpha', dct(seq('tuple', leaf('int')), leaf('int')))]), json_ok=False)
+    mk('shape-F49:none-annotation', lambda mb: mb.cls([('alpha', seq('list', leaf('nonebare')))]))
+    mk('shape-F48:seq-in-dict-key', lambda mb: mb.cls([('alpha', dct(seq('tuple', leaf('int')), leaf('int')))]), json_ok=False)
     return out
 
 
@@ -510,58 +541,24 @@ def same_outcome(model_res, impl_res):
     return False
 
 
-def lit_alias(m):
-    """two Literal types of one class table whose argument tuples are == but not identical (F23)"""
-    lits = []
-    for c in m['classes']:
-        for f in c['fields']:
-            for s in G.subtypes(f['ty'], m):
-                if s['k'] == 'lit':
-                    lits.append(s['vs'])
-    for a in lits:
-        for b in lits:
-            if a == b and [type(x) for x in a] != [type(x) for x in b]:
-                return True
-    return False
-
-
-def classify_py(mb):
-    """the same regions decided on the Python side (used when the model is unavailable)"""
-    m = mb.m
-    if lit_alias(m):
-        return 'F23'
-    for c in m['classes']:
-        for f in c['fields']:
-            t = f['ty']
-            lits = {json.dumps(s['vs']) for s in G.subtypes(t, m) if s['k'] == 'lit'}
-            uns = {json.dumps(s['ts'], sort_keys=True) for s in G.subtypes(t, m) if s['k'] == 'union'}
-            if len(lits) > 1 or len(uns) > 1:
-                return 'F22'
-    for c in m['classes']:
-        for f in c['fields']:
-            if not G.keyseq_free(f['ty'], False, m):
-                return 'F26'
-            if not G.f18_free(f['ty'], False, m):
-                return 'F18'
-    return None
+def same_names(m):
+    """two different helper-compiled types of the model with the same __name__ (F9)"""
+    al = m.get('named_alias') or {}
+    names = [al.get(n, n) for n in m['named']] + list(m['typed']) + [c['name'] for c in m['classes']]
+    return len(set(names)) < len(names)
 
 
 def classify(mb, gen, inst_tree):
-    """open region of a failing case, from the model's decidable checks (None: no listed region)"""
+    """open region of a failing case (None: no listed region)"""
     if inst_tree is not None and has_neg_td_any(inst_tree):
         return 'F3'
-    if gen is None or 'err' in gen:
-        return classify_py(mb)
-    if gen and 'err' not in gen:
-        if gen['alias']:
-            return 'F23'
-        if not gen['coherent']:
-            names = [c['name'] for c in mb.m['classes']]
-            return 'F9' if len(set(names)) < len(names) else 'F22'
-        if not gen['region']:
-            ok18 = all(G.f18_free(f['ty'], False, mb.m) for c in mb.m['classes'] for f in c['fields'])
-            return 'F26' if ok18 else 'F18'
+    if same_names(mb.m):
+        return 'F9'
     return None
+
+
+def classify_py(mb):
+    return 'F9' if same_names(mb.m) else None
 
 
 RESOLVED = set()
@@ -582,9 +579,9 @@ def run(ctx):
                 RESOLVED.add(id_region[f['id']])
     cases = build_cases(ctx)
     for _, mb in cases:
-        for c in mb.m['classes']:
-            for f in c['fields']:
-                if not predicted_clean(f['ty'], mb.m):
+        if same_names(mb.m):     # F9 (open): the generated code converts values at the wrong positions;
+            for c in mb.m['classes']:          # give the faithful model an oracle answer for whatever it reads
+                for f in c['fields']:
                     f['generous'] = True
     payload = {'models': [mb.m for _, mb in cases]}
     impl = []
@@ -627,12 +624,9 @@ def run(ctx):
             continue
         gen = gens.get(ci)
         region = classify(mb, gen, None)
-        py_region = 'F27' if model_has_bare_none(m) else classify_py(mb)
+        py_region = classify_py(mb)
         tie_ok = model_ok and py_region not in RESOLVED
         # ---- direct predicate 1: loader generation never raises
-        if res['gen_err'] and model_has_bare_none(m) and res['gen_err']['err'] == 'TypeError' and open_region(ctx, 'F27'):
-            ctx.hist('known_region', 'F27')
-            continue
         if res['gen_err']:
             ctx.violation('v1 loader generation raised %s for %s: %s' % (res['gen_err']['err'], label, res['gen_err']['msg'][:200]), rp_model)
             continue
@@ -645,9 +639,7 @@ def run(ctx):
             if s.get('parse_err'):
                 ctx.violation('generated function %s is not parseable: %s' % (fname, s['parse_err']), rp_model)
             elif s['unbound']:
-                if region == 'F26' and open_region(ctx, 'F26'):
-                    ctx.hist('known_region', 'F26')
-                else:
+                if True:
                     ctx.violation('generated function %s reads unbound variable(s) %s (%s)' % (fname, s['unbound'], label), rp_model)
         # ---- tie: binding summaries
         if tie_ok and gen is not None and 'err' not in gen and res.get('hook'):
@@ -691,7 +683,7 @@ def run(ctx):
                                    {'model': lo['code'], 'impl': {k: v for k, v in ir['load'].items() if k != 'msg'}, 'doc': ir.get('doc')})
                     if bad and not open_region(ctx, reg):
                         pass  # already reported as a violation with its input
-                if gen and 'err' not in gen and gen['coherent'] and gen['region'] and 'marker' not in lo['spec'] \
+                if gen and 'err' not in gen and gen['coherent'] and 'marker' not in lo['spec'] \
                         and not same_outcome(lo['spec'], ir['load']):
                     ctx.disagreements_checked += 1
                     ctx.broken_tie('specification load_v1 and implementation disagree inside the proved region (%s)' % label,
@@ -701,7 +693,7 @@ def run(ctx):
             ctx.sample({'label': label, 'annotation': [G.py_ann(f['ty'], m) for f in m['classes'][m['root']]['fields']],
                         'instance': m['instances'][0] if m['instances'] else None,
                         'impl': {k: v for k, v in (res['inst'][0] if res['inst'] else {}).items() if k in ('eq', 'same', 'json')},
-                        'model_gen': {k: gen[k] for k in ('coherent', 'region', 'alias')} if gen and 'err' not in gen else None})
+                        'model_gen': {k: gen[k] for k in ('coherent', 'distinct')} if gen and 'err' not in gen else None})
 
 
 
